@@ -68,6 +68,34 @@ theorem descent_wellformed (top : P) (ctop : C) (htop : ∀ x : P, x ≤ top)
     exact deheapSort_rowOk ((graphInv_iff.mp hg).2 p g[p] (Array.getElem?_eq_getElem hp'))
   exact key out hout
 
+/-- **Reported distances are the documented metric** (composition with C09): the index stores a
+surrogate `surr` of the documented `metric` and reports `corr (stored value)`.  If the correction
+inverts the surrogate (`corr (surr x y) = metric x y` — proved for every registered pair in
+`Props/C09.lean`) and is monotone, then every real entry `(q, d)` of the reported row `p` has
+`d = metric (data p) (data q)`, and reported rows still run closest-first.  `X` is the type of
+data rows, `Q` the type of reported values. -/
+theorem reported_distance_true {X Q : Type} [LinearOrder Q]
+    (top : P) (ctop : C) (htop : ∀ x : P, x ≤ top)
+    (draw : RngState → C × RngState) (data : Nat → X) (surr : X → X → P) (metric : X → X → Q)
+    (corr : P → Q) (hinv : ∀ x y, corr (surr x y) = metric x y) (hmono : Monotone corr)
+    (hsymm : ∀ x y, surr x y = surr y x)
+    (n : Nat) (cfg : Cfg) (stop : Nat → Bool) (rng : RngState)
+    (init : Option (Graph P))
+    (hinit : ∀ g, init = some g → GraphInv top n cfg.k (fun p q => surr (data p) (data q)) g)
+    (rp : Bool) (leafArray : List (List Int))
+    (hleaf : ∀ row ∈ leafArray, ∀ x ∈ row, x < (n : Int)) :
+    let out := (nnDescent top ctop draw (fun p q => surr (data p) (data q)) n cfg stop rng init rp leafArray).1
+    ∀ p (hp : p < out.size),
+      (∀ e ∈ out[p], 0 ≤ e.idx → corr e.prio = metric (data p) (data e.idx.toNat)) ∧
+      (∀ i j (hi : i < out[p].size) (hj : j < out[p].size), i ≤ j →
+          corr out[p][i].prio ≤ corr out[p][j].prio) := by
+  intro out p hp
+  have h := (descent_wellformed top ctop htop draw (fun p q => surr (data p) (data q))
+    (fun a b => hsymm _ _) n cfg stop rng init hinit rp leafArray hleaf).2 p hp
+  obtain ⟨_, hsorted, _, _, htruth⟩ := h
+  refine ⟨fun e he hidx => ?_, fun i j hi hj hij => hmono (hsorted i j hi hj hij)⟩
+  rw [htruth e he hidx, hinv]
+
 /-- **Sentinels come last** (corollary): in every output row the real entries form a prefix —
 once a slot is the sentinel `(-1, top)` every later slot is, and a real slot is preceded by
 real slots only.  (A real entry has `prio < top`, a sentinel has `prio = top`, rows ascend.) -/
